@@ -247,6 +247,11 @@ V("C02", "update_ref_inline_before_validate", "fire", "R02.a", (Z, """          
 V("C02", "dynamic_init_generator_before_super", "fire", "R02.a'", (P, """        super().__set__(obj,val)
 
         dynamic = callable(val)
+        if dynamic and obj is not None and self.name in obj._param__private.refs:
+            # val was taken as a reference: the value in force is what
+            # it resolves to (nothing new while it is still pending)
+            val = obj._param__private.values.get(self.name)
+            dynamic = callable(val) and not hasattr(val, '_Dynamic_last')
         if dynamic: self._initialize_generator(val,obj)
 """, """        dynamic = callable(val)
         if dynamic: self._initialize_generator(val,obj)
@@ -1952,3 +1957,94 @@ V("C13", "class_level_parameter_not_named", "fire", "R13.h", (Z, "              
 V("C09", "invalidation_shares_consumer_precedence", "fire", "R09.p", (R, "params[0].owner.param._watch(self._invalidate_current, [p.name for p in params], precedence=-2)", "params[0].owner.param._watch(self._invalidate_current, [p.name for p in params], precedence=-1)"))
 V("C08", "invalidation_shares_consumer_precedence", "fire", "R08.p", (R, "params[0].owner.param._watch(self._invalidate_obj, fps, precedence=-2)", "params[0].owner.param._watch(self._invalidate_obj, fps, precedence=-1)"))
 V("C09", "benign_invalidation_even_earlier", "benign", None, (R, "params[0].owner.param._watch(self._invalidate_obj, fps, precedence=-2)", "params[0].owner.param._watch(self._invalidate_obj, fps, precedence=-5)"))
+
+# ======================================================================= round h rules
+U = "param/_utils.py"
+D = "param/depends.py"
+V("C01", "list_items_checked_first_only", "fire", "R01.i", (P, "        err_kind = None\n        for v in val:\n            if is_instance and not isinstance(v, item_type):", "        err_kind = None\n        for v in val[:1]:\n            if is_instance and not isinstance(v, item_type):"))
+V("C01", "benign_list_item_class_test_rewritten", "benign", None, (P, "            elif not is_instance and (type(v) is not type or not issubclass(v, item_type)):", "            elif not is_instance and not (type(v) is type and issubclass(v, item_type)):"))
+V("C01", "constructor_skips_restated_default", "fire", "R01.o", (Z, """            pobj = objects.get(name)
+            if pobj is None or not pobj.allow_refs:""", """            pobj = objects.get(name)
+            if pobj is not None and val is pobj.default and not (pobj.instantiate or pobj.constant):
+                continue
+            if pobj is None or not pobj.allow_refs:"""))
+V("C02", "link_setup_rejects_self_reference", "fire", "R02.q", (Z, """                if isinstance(p, Parameter):
+                    groups[p.owner].append((pname, p.name))""", """                if isinstance(p, Parameter):
+                    if p.owner is self_.self and p.name == pname:
+                        raise ValueError("self reference")
+                    groups[p.owner].append((pname, p.name))"""))
+V("C03", "kwargs_watchers_get_live_values", "fire", "R03.y", (Z, "            args, kwargs = (), {event.name: event.new for event in events}", "            args, kwargs = (), {event.name: getattr(self.self_or_cls, event.name) for event in events}"))
+V("C03", "benign_kwargs_comprehension_renamed", "benign", None, (Z, "            args, kwargs = (), {event.name: event.new for event in events}", "            args, kwargs = (), {e.name: e.new for e in events}"))
+V("C03", "is_equal_requires_same_concrete_type", "fire", "R03.z", (Z, "    def is_equal(cls, obj1, obj2):\n        equals = cls.equalities.copy()", "    def is_equal(cls, obj1, obj2):\n        if type(obj1) is not type(obj2):\n            return False\n        equals = cls.equalities.copy()"))
+V("C04", "queue_setter_replaces_in_place", "fire", "R04.q", (Z, "        self_.self_or_cls._param__private.parameters_state['events'] = value", "        self_.self_or_cls._param__private.parameters_state['events'][:] = value"))
+V("C06", "function_form_one_watcher_per_dependency", "fire", "R06.f", (D, "            grouped[id(dep.owner)].append(dep)", "            grouped[(id(dep.owner), dep.name)].append(dep)"))
+V("C06", "benign_function_form_loop_variable_renamed", "benign", None, (D, "        for dep in deps:\n            grouped[id(dep.owner)].append(dep)", "        for d_ in deps:\n            grouped[id(d_.owner)].append(d_)"))
+V("C06", "method_dependencies_deduplicated_by_name", "fire", "R06.r", (Z, "                deps += method_deps\n", "                deps += [p for p in method_deps if p.name not in [d_.name for d_ in deps]]\n"))
+V("C08", "benign_method_reference_owner_rebound_within_one_spec", "benign", None, (Z, "                    for attr in path[:-1]:\n                        arg = getattr(arg, attr)\n                    arg = arg.param[path[-1]]", "                    for attr in path[:-1]:\n                        owner = arg = getattr(arg, attr)\n                    arg = arg.param[path[-1]]"))
+V("C08", "await_inside_syncing", "fire", "R08.z", (Z, """                try:
+                    new_obj = await awaitable
+                except Skip:
+                    pass
+                else:
+                    with _syncing(self_.self, (pname,)):
+                        try:
+                            self_.update({pname: new_obj})
+                        except Skip:
+                            pass
+""", """                with _syncing(self_.self, (pname,)):
+                    try:
+                        self_.update({pname: await awaitable})
+                    except Skip:
+                        pass
+"""))
+V("C09", "full_groupby_consecutive_runs_only", "fire", "R09.q", (U, """    d = defaultdict(list)
+    for item in l:
+        d[key(item)].append(item)
+    return d.items()""", """    import itertools
+    return {k: list(g) for k, g in itertools.groupby(l, key)}.items()"""))
+V("C10", "trigger_guards_only_objects_with_source_watchers", "fire", "R10.t", (Z, "            if self_.self is None:\n                self_.update(dict(params, **triggers))", "            if self_.self is None or not self_.self._param__private.ref_watchers:\n                self_.update(dict(params, **triggers))"))
+V("C11", "allow_none_exempt_from_revalidation", "fire", "R11.e", (Z, "                            'watchers', 'owner']", "                            'watchers', 'owner', 'allow_None']"))
+V("C11", "magnitude_materialises_bounds", "fire", "R11.f", (P, """                 inclusive_bounds=Undefined, step=Undefined, set_hook=Undefined, **params):
+        super().__init__(
+            default=default, bounds=bounds, softbounds=softbounds,""", """                 inclusive_bounds=Undefined, step=Undefined, set_hook=Undefined, **params):
+        if bounds is Undefined:
+            bounds = self._slot_defaults['bounds']
+        super().__init__(
+            default=default, bounds=bounds, softbounds=softbounds,"""))
+V("C12", "mutable_container_exact_builtin_types", "fire", "R12.u", (U, "    return isinstance(value, MUTABLE_TYPES)", "    return type(value) in (list, dict, set)"))
+V("C12", "benign_mutable_container_types_inline", "benign", None, (U, "    return isinstance(value, MUTABLE_TYPES)", "    return isinstance(value, (abc.MutableSequence, abc.MutableSet, abc.MutableMapping))"))
+V("C14", "namespace_from_base_caches", "fire", "R14.w", (Z, """        for class_ in classlist(cls):
+            for name, val in class_.__dict__.items():
+                if isinstance(val, Parameter):
+                    paramdict[name] = val""", """        for base in reversed(cls.__bases__):
+            if isinstance(base, ParameterizedMetaclass):
+                paramdict.update(base.param._cls_parameters)
+        for name, val in cls.__dict__.items():
+            if isinstance(val, Parameter):
+                paramdict[name] = val"""))
+V("C16", "selector_serialized_by_label", "fire", "R16.t", (P, "\n\nclass ObjectSelector(Selector):", "\n    def serialize(self, value):\n        return str(value)\n\n\nclass ObjectSelector(Selector):"))
+V("C18", "identical_object_not_validated", "fire", "R18.v", (Z, "        self._validate(val)\n\n        _old = NotImplemented", "        if obj is None or val is not obj._param__private.values.get(name, NotImplemented):\n            self._validate(val)\n\n        _old = NotImplemented"))
+V("C19", "value_generator_reads_instance_copy_default", "fire", "R19.v", (Z, "                value = self_.cls.param[name].default", "                value = param_obj.default"))
+V("C19", "generator_initialised_before_assignment", "fire", "R19.y", (P, """        super().__set__(obj,val)
+
+        dynamic = callable(val)
+        if dynamic and obj is not None and self.name in obj._param__private.refs:
+            # val was taken as a reference: the value in force is what
+            # it resolves to (nothing new while it is still pending)
+            val = obj._param__private.values.get(self.name)
+            dynamic = callable(val) and not hasattr(val, '_Dynamic_last')
+        if dynamic: self._initialize_generator(val,obj)
+""", """        dynamic = callable(val)
+        if dynamic: self._initialize_generator(val,obj)
+
+        super().__set__(obj,val)
+"""))
+V("C08", "method_reference_owner_hoisted_and_rebound", "fire", "R08.w", (Z, """        refs = []
+        for arg in (args + kwargs):
+            if isinstance(arg, str):
+                owner = get_method_owner(reference)
+                if arg in owner.param:""", """        refs = []
+        owner = get_method_owner(reference)
+        for arg in (args + kwargs):
+            if isinstance(arg, str):
+                if arg in owner.param:"""), (Z, "                    for attr in path[:-1]:\n                        arg = getattr(arg, attr)\n                    arg = arg.param[path[-1]]", "                    for attr in path[:-1]:\n                        owner = arg = getattr(arg, attr)\n                    arg = arg.param[path[-1]]"))
